@@ -46,13 +46,10 @@ class FinalizeC(RtContract):
         cx.H0 = H0
         i, j = Const('i', I), Const('j', I)
         n = cx.VN
-        st.assume(ForAll([i], Implies(And(0 <= i, i < n), And(kind(VS[i]) == K_OBJ, md_owner(md(VS[i])) == VS[i]))))
-        # "each object once": the yielded sequence is injective, i.e. it has an index function
-        st.assume(ForAll([i], Implies(And(0 <= i, i < n), vidx(md(VS[i])) == i)))
-        # requires: every instance carries nothing or the raw span of a match that consumed input, inside the text
-        st.assume(ForAll([i], Implies(And(0 <= i, i < n), Or(
-            Select(H0, md(VS[i])) == NONE,
-            self.is_raw(ex, Select(H0, md(VS[i])))))))
+        # contract of visit (C15) and requires on the heap, for every index i < VN:
+        #   VS[i] is a parsed object; "each object once": the yielded sequence is injective, i.e. it has an index function
+        #   vidx(md(VS[i])) = i;  the instance carries nothing or a raw span in the unit's regime.
+        # They are used only at the loop index, where `havoc` spells the instance out (no quantified hypothesis is needed).
         st.assume(Not(truthy(NONE)))
 
     def is_raw(self, ex, v):
@@ -235,6 +232,7 @@ class FinalizeAnySpanC(FinalizeC):
             st.heap['position_info'] = ex.fv('H', z3.ArraySort(Val, Val))
             # heap contents are not tracked in this unit; every visited instance still holds None or a raw span
             i = st.ghost['i']
+            st.assume(Implies(i < cx.VN, And(kind(cx.VS[i]) == K_OBJ, md_owner(md(cx.VS[i])) == cx.VS[i])))
             st.assume(Or(Select(st.heap['position_info'], md(cx.VS[i])) == NONE, self.is_raw(ex, Select(st.heap['position_info'], md(cx.VS[i])))))
         return {1: LoopSpec(inv, havoc=havoc)}
 
@@ -278,3 +276,60 @@ class PositionAtC(RtContract):
 
 
 FINAL = [FinalizeC(), FinalizeAnySpanC(), PositionAtC()]
+
+
+def _bounded_spans(self, cx):
+    """bounded native stand-in: real grammars, real parses; spans compared with offsets known by construction"""
+    from sourcer import Grammar
+    g = Grammar('class Word {\n text: /[a-z]+/\n}\n'
+                'class Pair {\n peek: Expect(Word)\n a: Word\n b: /[ \\n]+/ >> Word\n ahead: Expect(/[ \\n]+/ >> Word)?\n}\n'
+                'class Empty {\n x: "q"?\n}\n'
+                'start = [Pair, Empty]')
+    bad, tried = [], 0
+
+    def pos_of(text, i):
+        if not (0 <= i < len(text)):
+            return (i, None, None)
+        line = 1 + text.count('\n', 0, i) + (1 if text[i] == '\n' else 0)
+        col = 0 if text[i] == '\n' else i - text.rfind('\n', 0, i)
+        return (i, line, col)
+
+    for prefix in ('', 'zz\n', '\n\nx '):
+        for w1, sep, w2, tail in [('ab', ' ', 'cd', ''), ('a', '\n', 'bcd', ' ef'), ('abc', ' \n ', 'd', '\nxyz 1'), ('q', ' ', 'r', ' s t')]:
+            text = prefix + w1 + sep + w2 + tail
+            k = len(prefix)
+            for full in (False, True):
+                tried += 1
+                try:
+                    try:
+                        r = g.parse(text, pos=k, fullparse=full)
+                    except g.PartialParseError as e:
+                        r = e.partial_result
+                    pair = r[0]
+                    a0, a1 = k, k + len(w1) - 1
+                    b0 = k + len(w1) + len(sep)
+                    b1 = b0 + len(w2) - 1
+                    want = {'pair': (pos_of(text, a0), pos_of(text, b1)), 'a': (pos_of(text, a0), pos_of(text, a1)),
+                            'b': (pos_of(text, b0), pos_of(text, b1))}
+                    got = {'pair': pair._metadata.position_info, 'a': pair.a._metadata.position_info, 'b': pair.b._metadata.position_info}
+                    for key in want:
+                        gi = got[key]
+                        flat = (tuple(gi.start), tuple(gi.end)) if gi is not None and hasattr(gi, 'start') else gi
+                        if flat != want[key]:
+                            bad.append({'text': text, 'pos': k, 'fullparse': full, 'instance': key, 'got': repr(gi), 'want': want[key]})
+                    if pair.peek is not pair.a:
+                        bad.append({'text': text, 'what': 'memoised instance not reused'})
+                    if pair.ahead is not None:
+                        ah = pair.ahead._metadata.position_info
+                        c0 = b1 + 1 + (len(tail) - len(tail.lstrip(' \n')))
+                        wlen = len(tail.strip(' \n').split(' ')[0].split('\n')[0])
+                        wa = (pos_of(text, c0), pos_of(text, c0 + wlen - 1))
+                        flat = (tuple(ah.start), tuple(ah.end)) if ah is not None and hasattr(ah, 'start') else ah
+                        if flat != wa:
+                            bad.append({'text': text, 'pos': k, 'fullparse': full, 'instance': 'ahead (lookahead past the final position)', 'got': repr(ah), 'want': wa})
+                except Exception as e:
+                    bad.append({'text': text, 'pos': k, 'fullparse': full, 'raised': repr(e)})
+    return bad, tried, '3 prefixes x 4 token layouts x fullparse in {False, True}: nested / memoised / lookahead / zero-width instances, multi-line, non-zero pos'
+
+
+FinalizeC.bounded = _bounded_spans
